@@ -54,16 +54,14 @@ def extS {d : Nat} (S : Fin d → Bool) : Nat → Bool := fun i => if h : i < d 
 theorem extS_lt {d : Nat} (S : Fin d → Bool) (i : Nat) (h : i < d) : extS S i = S ⟨i, h⟩ := by
   simp [extS, h]
 
-/-- `d` independent elements of a group generated by `d'` elements: `d ≤ d'` -/
-theorem overlapBasis_le (A B : STab) (hg : A.Good) (hn : A.n = B.n) (d d' : Nat) (gens gens' : Nat → PRow)
-    (h : IsOverlapBasis A B d gens) (h' : IsOverlapBasis A B d' gens') : d ≤ d' := by
-  -- every subset product of `gens` is a subset product of `gens'`
-  have repr : ∀ S : Fin d → Bool, ∃ T : Nat → Bool, EqOn A.n (sprod A.n gens (extS S) d) (sprod A.n gens' T d') := by
-    intro S
-    have pa := sprod_spn_gens A gens d h.memA (extS S) d (Nat.le_refl _)
-    have pb := sprod_spn_gens B gens d h.memB (extS S) d (Nat.le_refl _)
-    rw [← hn] at pb
-    exact h'.span _ pa pb
+/-- `d` independent elements of a real commuting group, all of whose subset products are subset products of `d'`
+    elements: `d ≤ d'` (an injection of the `2^d` subsets into the `2^d'` subsets) -/
+theorem indep_le_gen (A : STab) (hg : A.Good) (gens : Nat → PRow) (d : Nat) (hm : ∀ i, i < d → A.Spn (gens i))
+    (hind : ∀ S : Nat → Bool, EqOn A.n (sprod A.n gens S d) PRow.one → ∀ i, i < d → S i = false)
+    (gens' : Nat → PRow) (d' : Nat)
+    (hspan : ∀ S : Nat → Bool, ∃ T : Nat → Bool, EqOn A.n (sprod A.n gens S d) (sprod A.n gens' T d')) : d ≤ d' := by
+  have repr : ∀ S : Fin d → Bool, ∃ T : Nat → Bool, EqOn A.n (sprod A.n gens (extS S) d) (sprod A.n gens' T d') :=
+    fun S => hspan (extS S)
   let φ : (Fin d → Bool) → (Fin d' → Bool) := fun S j => Classical.choose (repr S) j.1
   have inj : Function.Injective φ := by
     intro S1 S2 e
@@ -74,11 +72,11 @@ theorem overlapBasis_le (A B : STab) (hg : A.Good) (hn : A.n = B.n) (d d' : Nat)
     have p2 := Classical.choose_spec (repr S2)
     rw [sprod_congr A.n gens' _ _ d' e'] at p1
     have e12 : EqOn A.n (sprod A.n gens (extS S1) d) (sprod A.n gens (extS S2) d) := p1.trans p2.symm
-    have real1 := spn_real A hg _ (sprod_spn_gens A gens d h.memA (extS S1) d (Nat.le_refl _))
+    have real1 := spn_real A hg _ (sprod_spn_gens A gens d hm (extS S1) d (Nat.le_refl _))
     have triv : EqOn A.n (sprod A.n gens (fun i => xor (extS S1 i) (extS S2 i)) d) PRow.one :=
-      ((sprod_mul_gens A hg gens d h.memA (extS S1) (extS S2) d (Nat.le_refl _)).symm.trans
+      ((sprod_mul_gens A hg gens d hm (extS S1) (extS S2) d (Nat.le_refl _)).symm.trans
         (mul_congr A.n _ _ _ _ (EqOn.refl _ _) e12.symm)).trans (mul_self A.n _ real1)
-    have z := h.indep _ triv
+    have z := hind _ triv
     funext i
     have := z i.1 i.2
     rw [extS_lt S1 i.1 i.2, extS_lt S2 i.1 i.2] at this
@@ -87,6 +85,15 @@ theorem overlapBasis_le (A B : STab) (hg : A.Good) (hn : A.n = B.n) (d d' : Nat)
   have hc := Fintype.card_le_of_injective φ inj
   rw [Fintype.card_fun, Fintype.card_fun, Fintype.card_bool, Fintype.card_fin, Fintype.card_fin] at hc
   exact (Nat.pow_le_pow_iff_right (by decide)).1 hc
+
+theorem overlapBasis_le (A B : STab) (hg : A.Good) (hn : A.n = B.n) (d d' : Nat) (gens gens' : Nat → PRow)
+    (h : IsOverlapBasis A B d gens) (h' : IsOverlapBasis A B d' gens') : d ≤ d' := by
+  apply indep_le_gen A hg gens d h.memA h.indep gens' d'
+  intro S
+  have pa := sprod_spn_gens A gens d h.memA S d (Nat.le_refl _)
+  have pb := sprod_spn_gens B gens d h.memB S d (Nat.le_refl _)
+  rw [← hn] at pb
+  exact h'.span _ pa pb
 
 /-- **the rank of the common subgroup is well defined** -/
 theorem overlapDim_unique (A B : STab) (hg : A.Good) (hn : A.n = B.n) (d d' : Nat)
